@@ -26,7 +26,7 @@ def family(rng):
     p = G.Prog()
     p.features = {"subsumption"}
     mk = lambda name, types, k: p.rels.append(G.Rel(len(p.rels), name, types, k)) or p.rels[-1]
-    kind = rng.below(4)
+    kind = rng.choice([0, 1, 2, 3, 4, 4, 5]) if rng.chance(9, 10) else 5
     e = mk("e", ["number", "number", "number"], "edb")
     d = mk("d", ["number", "number", "number"], "idb")
     d.output, d.layer, d.repr = True, 1, "btree_delete"
@@ -52,11 +52,29 @@ def family(rng):
         p.clauses.append(("d", [y, x, ("op", "add", [c1, N(1)], "number")], [("pos", "e", [x, y, c1]), ("cmp", "lt", x, y)]))
         dom_text = "d(x,y,c1) <= d(x,y,c2) :- c1 < c2."
         dom = ([x, y, c1], [x, y, c2], [("cmp", "lt", c1, c2)])
-    else:              # Pareto front over (second, third) per first column
+    elif kind == 3:    # Pareto front over (second, third) per first column
         p.clauses.append(("d", [x, y, c1], [("pos", "e", [x, y, c1])]))
         dom_text = "d(x,a,c1) <= d(x,b,c2) :- a <= b, c1 <= c2, a + c1 < b + c2."
         dom = ([x, a, c1], [x, b, c2], [("cmp", "le", a, b), ("cmp", "le", c1, c2),
                                          ("cmp", "lt", ("op", "add", [a, c1], "number"), ("op", "add", [b, c2], "number"))])
+    elif kind == 4:    # shortest paths where the subsumptive relation is MUTUALLY recursive with a frontier relation whose
+        #                name sorts before or after it (the stratum's relations are processed in name order)
+        aux = mk(rng.choice(["a0", "f"]), ["number", "number"], "idb")
+        aux.output, aux.layer = False, 1
+        bound = rng.range(12, 40)
+        p.clauses.append(("d", [x, y, c1], [("pos", "e", [x, y, c1])]))
+        p.clauses.append((aux.name, [x, y], [("pos", "d", [x, y, ("anon", "number")])]))
+        s = ("op", "add", [c1, c2], "number")
+        p.clauses.append(("d", [x, z, s], [("pos", aux.name, [x, y]), ("pos", "d", [x, y, c1]), ("pos", "e", [y, z, c2]), ("cmp", "lt", s, N(bound))]))
+        dom_text = "d(x,y,c1) <= d(x,y,c2) :- c2 < c1."
+        dom = ([x, y, c1], [x, y, c2], [("cmp", "lt", c2, c1)])
+    else:              # volume: best value per key over many keys x many observations -- long runs of neighbouring tuples are
+        #                erased in one delete sequence from a tree of many leaves (merges and borrows in BTreeDelete)
+        keys, obs = rng.range(40, 90), rng.range(12, 24)
+        p.facts["e"] = list({(k, k % 3, (k * 7 + o * 13) % 101) for k in range(keys) for o in range(obs)})
+        p.clauses.append(("d", [x, y, c1], [("pos", "e", [x, y, c1])]))
+        dom_text = "d(x,y,c1) <= d(x,y,c2) :- c1 < c2." if rng.chance(1, 2) else "d(x,y,c1) <= d(x,y,c2) :- c2 < c1."
+        dom = ([x, y, c1], [x, y, c2], [("cmp", "lt", c1, c2) if "c1 < c2" in dom_text else ("cmp", "lt", c2, c1)])
     return p, dom_text, dom, kind
 
 
@@ -131,7 +149,7 @@ def main(pid, tier, seed, replay):
             p, dom_text, dom, kind = fams[i]
             chk.finding(None, "the subsumed relation differs between thread counts / back ends", {"program": p.render_dl(extra=[dom_text]), "facts": p.facts_text("e"), "results": [list(x)[:10] for x in s]})
     chk.cov.update({"evaluations": len(runs), "distinct_nontrivial": len(distinct),
-                    "rule": "four families (bounded shortest paths, hop counts, best-per-key, Pareto front) on random weighted graphs x {-j1, -j4, -j16, compiled}; "
+                    "rule": "six families (bounded shortest paths, hop counts, best-per-key, Pareto front, shortest paths mutually recursive with a frontier relation, best-per-key over 40-90 keys x 12-24 observations) on random weighted graphs x {-j1, -j4, -j16, compiled}; "
                             "non-trivial = distinct accepted run in which subsumption actually removed tuples", "traces_validated_against_impl": len(verdicts), "accepted_by_family": kinds})
     chk.assumptions = ["dominance conditions are strict partial orders by construction of the families", "the unsubsumed model is finite thanks to the cost bounds"]
     return chk.finish(["Coq 8.16.1 kernel; Properties_C11.v closed under the global context", "extraction ExtrOcamlBasic; ocaml/contract_driver.ml and datalog_driver.ml (unsubsumed model)",
